@@ -26,12 +26,17 @@ LEVEL_TEXT = ("Theorems in Lean: prepending k newlines to a block's text moves e
               "level of block quote or list item (sub-language D2, a conservative extension: scan2_conservative); scan2_block_lines: the padded line is the "
               "document line minus the container prefix (spaces, or <= 3 spaces + '>' + <= 1 space) and minus <= 3 (fence) / <= 4 (indented) spaces; "
               "doc2_error_line: the reported line is the document line of the offending text, the column shifted by exactly the removed prefix - for every "
-              "document of D2, no observed hypothesis; compared exactly with marko.")
+              "document of D2, no observed hypothesis; compared exactly with marko. End to end (C19f): mdCompile models compile_markdown from the document text "
+              "(scan, group, pad, parse with located syntax errors, compile, first failing group wins, a syntax error in a group beats a compile error); "
+              "mdCompile_error_line: every error of every document of D2 names the document line that holds the offending text and quotes that line's recipe "
+              "text, with two exactly characterised exceptions (an empty fenced block: the fence line, quoting nothing; a document ending in a Python-only "
+              "line break inside an indented block: one line below the end - a recorded finding of C07); mdCompile_first_group, mdCompile_ok_iff; the "
+              "outcome is compared exactly with compile_markdown on documents with one or several faults.")
 LEVEL_NOTE = ("Partial: outside the sub-language D2 (nested containers, tabs, HTML blocks, empty list items ...) the theorems rest on the "
               "per-document hypothesis H_marko (the captured source is the block's lines with one prefix removed per line; pos is the offset of the first code "
               "line resp. the fence line), which is marko's behaviour and is observed per generated document, not proved; inside D2 that hypothesis is replaced by "
               "the scanner model, tied to marko by exact correspondence (that scanBlocks2 equals marko is validated, not proved). Trusted: Lean kernel.")
-LEAN_MODULES = ["RecipeGrid.Props.C19", "RecipeGrid.Props.C19b", "RecipeGrid.Props.C19c", "RecipeGrid.Props.C19d", "RecipeGrid.Props.C19e"]
+LEAN_MODULES = ["RecipeGrid.Props.C19", "RecipeGrid.Props.C19b", "RecipeGrid.Props.C19c", "RecipeGrid.Props.C19d", "RecipeGrid.Props.C19e", "RecipeGrid.Props.C19f"]
 SOURCES = ["recipe_grid/markdown.py", "recipe_grid/compiler.py"]
 RULE = ("documents of C13 (top level / list item / block quote x indented / fenced with either fence character, several blocks and independent recipes) with "
         "one injected fault (redefinition, proportion of an unknown name, stray token) at a random statement of a random block; LF and CRLF line endings; "
@@ -186,6 +191,7 @@ def correspondence(run):
             run.disagree("padsrc", doc, impl[:300], str(m)[:300])
     scanner_correspondence(run)
     syntax_position_correspondence(run)
+    mdcompile_correspondence(run)
 
 
 def scanner_correspondence(run):
@@ -218,6 +224,20 @@ def scanner_correspondence(run):
         run.disagree("md-blocks2:" + d[0], d[1], repr(d[2])[:600], repr(d[3])[:600])
     for t, bad in r["prop_fail"][:10]:
         run.disagree("md-blocks2:line-property", t, repr(bad[:2])[:600], "scan2_block_lines")
+
+
+def mdcompile_correspondence(run):
+    """C19f / C07d: compile_markdown from the document text - outcome kind, line, column and quoted line, or the number of independent recipes -
+    against the model mdCompile (scanner, grouping, padding, parser with located syntax errors, compiler), on documents of D2 with one or
+    several faults and without"""
+    from .. import mdcompile_corr
+    r = mdcompile_corr.collect(run.seed * 15485863 + 20260930, run.budget(120, 2500), ask=run.ask)
+    run.groups["compile_markdown (outcome, line, column, quoted line / number of recipes) vs mdCompile, documents in D2"] += (sum(r["inside"].values()) if hasattr(r["inside"], "values") else r["inside"])
+    for k, v in r["dist"].items():
+        run.dist["md-compile:" + k] += v
+    run.evaluations += r["docs"]
+    for d in r["disagreements"][:20]:
+        run.disagree("md-compile:" + str(d[0]), d[1] if len(d) > 1 else "", repr(d[2:4])[:600], repr(d[4:])[:600])
 
 
 def syntax_position_correspondence(run):
